@@ -341,7 +341,10 @@ static void run_chain_case(char **ops, int nops)
 		char *p = ops[i];
 		while (nf < 6) { f[nf++] = p; p = strchr(p, ':'); if (!p) break; *p++ = 0; }
 		c = nf > 1 ? atoi(f[1]) : 0;
-		if (c < 0 || c >= nctx) continue;
+		if (c < 0 || c >= nctx) {	/* a malformed (shrunk) history: the slot is taken, as in the model */
+			if ((f[0][0] == 'X' || f[0][0] == 'N') && nctx < MAXCTX) ctx[nctx++] = NULL;
+			continue;
+		}
 		if (!strcmp(f[0], "X") || !strcmp(f[0], "N")) {
 			if (nctx >= MAXCTX) continue;
 			ctx[nctx] = ctx[c] ? kdump_clone(ctx[c], f[0][0] == 'X' ? KDUMP_CLONE_XLAT : 0) : NULL;
